@@ -115,6 +115,56 @@ MUTANTS = [
     ("c06-cutoff-changed-at", "C06", "C06.DATA-gate", N,
      "        } else {\n            tracing::info!(\"cutoff applied to value change\");",
      "        } else {\n            self.changed_at.set(state.stabilisation_num.get());\n            tracing::info!(\"cutoff applied to value change\");"),
+    # ---- C07
+    ("c07-try-get-ignores-status", "C07", "C07.GUARD-read", "src/internal_observer.rs",
+     "                IncrStatus::Stabilising => Err(ObserverError::CurrentlyStabilising),", "                IncrStatus::Stabilising => self.value_inner(),"),
+    ("c07-observe-inuse-immediately", "C07", "C07.WMW-inuse", "src/state.rs",
+     "        let internal_observer = InternalObserver::new(incr);\n", "        let internal_observer = InternalObserver::new(incr);\n        internal_observer.state.set(ObserverState::InUse);\n"),
+    ("c07-var-set-recomputes", "C07", "C07.WMW-value", "src/var.rs",
+     "        t.num_var_sets.increment();\n", "        t.num_var_sets.increment();\n        if watch.is_necessary() {\n            let _ = watch.recompute_one(&t);\n        }\n"),
+    # ---- C08
+    ("c08-modify-writes-value-stabilising", "C08", "C08.SIB-writes", "src/var.rs",
+     "                    let mut cloned = (*self.value.borrow()).clone();\n                    f(&mut cloned);\n                    v.replace(cloned);",
+     "                    f(&mut self.value.borrow_mut());\n                    let cloned = (*self.value.borrow()).clone();\n                    v.replace(cloned);"),
+    ("c08-apply-before-bump", "C08", "C08.DOM-end", "src/state.rs",
+     "        self.stabilisation_num\n            .set(self.stabilisation_num.get().add1());\n        #[cfg(debug_assertions)]\n        {\n            self.only_in_debug.currently_running_node.take();\n            // t.only_in_debug.expert_nodes_created_by_current_node <- []);\n        }\n        tracing::info_span!(\"set_during_stabilisation\").in_scope(|| {\n            let mut stack = self.set_during_stabilisation.borrow_mut();\n            while let Some(var) = stack.pop() {\n                let Some(var) = var.upgrade() else { continue };\n                tracing::debug!(\"set_during_stabilisation: found var with {:?}\", var.id());\n                var.set_var_stabilise_end();\n            }\n        });\n",
+     "        #[cfg(debug_assertions)]\n        {\n            self.only_in_debug.currently_running_node.take();\n        }\n        tracing::info_span!(\"set_during_stabilisation\").in_scope(|| {\n            let mut stack = self.set_during_stabilisation.borrow_mut();\n            while let Some(var) = stack.pop() {\n                let Some(var) = var.upgrade() else { continue };\n                tracing::debug!(\"set_during_stabilisation: found var with {:?}\", var.id());\n                var.set_var_stabilise_end();\n            }\n        });\n        self.stabilisation_num\n            .set(self.stabilisation_num.get().add1());\n"),
+    ("c08-update-no-push", "C08", "C08.SIB-writes", "src/var.rs",
+     "                    let mut stack = t.set_during_stabilisation.borrow_mut();\n                    stack.push(self.erased());\n                    // we have to clone, because we don't want to mem::take the value",
+     "                    // we have to clone, because we don't want to mem::take the value"),
+    ("c08-is-stable-ignores-dead-vars", "C08", "C08.DTAB-stable", "src/state.rs",
+     "        self.recompute_heap.is_empty()\n            && self.dead_vars.borrow().is_empty()\n", "        self.recompute_heap.is_empty()\n"),
+    ("c08-set-pushes-always", "C08", "C08.SIB-writes", "src/var.rs",
+     "                if v.is_none() {\n                    let mut stack = t.set_during_stabilisation.borrow_mut();\n                    stack.push(self.erased());\n                }",
+     "                {\n                    let mut stack = t.set_during_stabilisation.borrow_mut();\n                    stack.push(self.erased());\n                }"),
+    # ---- C10
+    ("c10-created-to-disallowed", "C10", "C10.TS-transitions", "src/internal_observer.rs",
+     "                self.state.set(Unlinked);", "                self.state.set(Disallowed);"),
+    ("c10-value-inner-created-disallowed", "C10", "C10.DTAB-api", "src/internal_observer.rs",
+     "            Created => Err(ObserverError::NeverStabilised),", "            Created => Err(ObserverError::Disallowed),"),
+    ("c10-sentinel-le-2", "C10", "C10.GUARD-sentinel", "src/public.rs",
+     "        // all_observers holds another strong reference to internal. but we can be _sure_ we're the last public::Observer by using a sentinel Rc.\n        if Rc::strong_count(&self.sentinel) <= 1 {",
+     "        if Rc::strong_count(&self.sentinel) <= 2 {"),
+    ("c10-unsubscribe-no-token-check", "C10", "C10.DTAB-api", "src/internal_observer.rs",
+     "        if token.0 != self.id {\n            return Err(ObserverError::Mismatch);\n        }\n", ""),
+    ("c10-token-public-fields", "C10", "C10.CFW-token", "src/internal_observer.rs",
+     "pub struct SubscriptionToken(ObserverId, i32);", "pub struct SubscriptionToken(pub ObserverId, pub i32);"),
+    ("c10-subscribe-after-disallow", "C10", "C10.DTAB-api", "src/internal_observer.rs",
+     "            Disallowed | Unlinked => Err(ObserverError::Disallowed),\n            Created | InUse => {\n                let token = self.next_subscriber.get();",
+     "            Unlinked => Err(ObserverError::Disallowed),\n            Created | InUse | Disallowed => {\n                let token = self.next_subscriber.get();"),
+    # ---- C13
+    ("c13-scope-guard-reset", "C13", "C13.WMW-status", "src/state.rs",
+     "            self.stabilise_start();\n\n            while let Some(node) = self.recompute_heap.remove_min() {",
+     "            self.stabilise_start();\n            struct ResetStatus<'a>(&'a State);\n            impl Drop for ResetStatus<'_> {\n                fn drop(&mut self) {\n                    if self.0.status.get() == IncrStatus::Stabilising {\n                        self.0.status.set(IncrStatus::NotStabilising);\n                    }\n                }\n            }\n            let _reset = ResetStatus(self);\n\n            while let Some(node) = self.recompute_heap.remove_min() {"),
+    ("c13-catch-unwind", "C13", "C13.WMW-status", "src/state.rs",
+     "                node.recompute(self);\n", "                let _ = std::panic::catch_unwind(std::panic::AssertUnwindSafe(|| node.recompute(self)));\n"),
+    ("c13-status-reset-early", "C13", "C13.WMW-status", "src/state.rs",
+     "        for wm in self.weak_maps.borrow().iter() {\n            let mut w = wm.borrow_mut();\n            w.garbage_collect();\n        }\n        self.status.set(IncrStatus::NotStabilising);",
+     "        self.status.set(IncrStatus::NotStabilising);\n        for wm in self.weak_maps.borrow().iter() {\n            let mut w = wm.borrow_mut();\n            w.garbage_collect();\n        }"),
+    ("c13-try-get-ignores-status", "C13", "C13.GUARD-read", "src/internal_observer.rs",
+     "                IncrStatus::Stabilising => Err(ObserverError::CurrentlyStabilising),", "                IncrStatus::Stabilising => self.value_inner(),"),
+    ("c13-no-status-assert", "C13", "C13.DOM-assert", "src/state.rs",
+     "            assert_eq!(self.status.get(), IncrStatus::NotStabilising);\n", ""),
     # ---- C09
     ("c09-changed-changed-skip", "C09", "C09.DTAB-run", "src/node_update.rs",
      "                (Previously::Changed, NodeUpdateDelayed::Necessary)\n                | (Previously::Necessary, NodeUpdateDelayed::Necessary)",
